@@ -81,7 +81,7 @@ def make_tagger(two_haps):
 class C09(PipelineProp):
     pid = "C09"
     design_ref = "6/C09"
-    required_theorems = ['C09_label_tag_spec', 'C09_label_fails_only_unloc_unpainted', 'C09_target_set_by_tag', 'C09_target_monotone_make', 'C09_target_monotone_label', 'C09_routing', 'C09_asm_key_of_tagged', 'C09_asm_key_of_untagged', 'C09_legacy_refuted', 'C09_name_assemblies_spec', 'C09_named_preserves_scaffolds', 'C09_name_assemblies_error_iff', 'C09_single_names_nodup_iff', 'C09_primary_all_haplotigs_last', 'C09_hap_prefix_of_shaped_name', 'C09_hap_prefix_some_shape', 'C09_hap_prefix_examples']
+    required_theorems = ['C09_label_tag_spec', 'C09_label_fails_only_unloc_unpainted', 'C09_target_set_by_tag', 'C09_target_monotone_make', 'C09_target_monotone_label', 'C09_routing', 'C09_asm_key_of_tagged', 'C09_asm_key_of_untagged', 'C09_legacy_refuted', 'C09_name_assemblies_spec', 'C09_named_preserves_scaffolds', 'C09_name_assemblies_error_iff', 'C09_single_names_nodup_iff', 'C09_primary_all_haplotigs_last', 'C09_hap_prefix_of_shaped_name', 'C09_hap_prefix_some_shape', 'C09_hap_prefix_examples', 'C09_routing_end_to_end', 'C09_haplotig_bait_routed', 'C09_contaminant_bait_routed']
     n_quick = 400
 
     def rule(self):
